@@ -428,6 +428,141 @@ impl<T, U, N: ArrayLength, F: Foreign1<T, U>> ForeignIter<U> for MapPipe<T, U, N
                   ('ascending', ['C08'], 'forall|k: int| 0 <= k < N::n() ==> (#[trigger] ret.1.log()[k]).0 == this.elems()[k]'),
                   ('result-k-at-index-k', ['C08'], 'forall|k: int| 0 <= k < N::n() ==> (#[trigger] ret.0->Ret_0.elems()[k]) == ret.1.log()[k].1')],
                  stats, n, ['C03', 'C04', 'C08']))
+
+    # ---- GenericArray::inverted_zip (both operands owned): two pipelines, selected by needs_drop (rule R-pipe) ----
+    f = g.extract_method('src/lib.rs', 'unsafe impl<T, N: ArrayLength> GenericSequence<T> for GenericArray<T, N>', 'inverted_zip')
+    body = ex.normalize(f['body'])
+    n = ex.statements(body)
+    stats = {}
+    body = ex.apply_rules(body, [
+        ('R-misc', r'\bunsafe \{', '{'),
+        ('R-len', r'mem::needs_drop::<T>\(\)', 'nd_t'),
+        ('R-len', r'mem::needs_drop::<B>\(\)', 'nd_b'),
+        ('R-mutself', r'let mut right = ArrayConsumer::new\(self\);', 'let right = ArrayConsumer::new(this);'),
+        ('R-mutself', r'let mut left = ArrayConsumer::new\(lhs\);', 'let left = ArrayConsumer::new(lhs);'),
+        ('R-guard', r'let \(left_array_iter, left_position\) = left\.iter_position\(\); ', ''),
+        ('R-guard', r'let \(right_array_iter, right_position\) = right\.iter_position\(\); ', ''),
+        ('R-slots', r'let left = ManuallyDrop::new\(lhs\);', 'let left = lhs.slots;'),
+        ('R-slots', r'let right = ManuallyDrop::new\(self\);', 'let right = this.slots;'),
+    ], stats)
+    m1 = re.search(r'FromIterator::from_iter\(left_array_iter\.zip\(right_array_iter\)\.map\(\|\(l, r\)\| \{ (.*?) f\(left_value, right_value\) \}\)\)', body)
+    m2 = re.search(r'FromIterator::from_iter\(left\.iter\(\)\.zip\(right\.iter\(\)\)\.map\(\|\(l, r\)\| \{ f\(ptr::read\(l\), ptr::read\(r\)\) \}\)\)', body)
+    if not m1 or not m2:
+        raise ex.Unsupported('inverted_zip: the two from_iter(..zip..map(closure)) pipelines were not found in the expected form (rule R-pipe)')
+    inner = m1.group(1)
+    subs = [(r'ptr::read\(l\)', 'self.left.array.take(l)'), (r'ptr::read\(r\)', 'self.right.array.take(r)'),
+            (r'\*left_position', 'self.left.position'), (r'\*right_position', 'self.right.position')]
+    for pat, rep in subs:
+        inner, k = re.subn(pat, rep, inner)
+        if k < 1:
+            raise ex.Unsupported('inverted_zip: closure body lacks %s' % pat)
+    stats.update({'R-pipe': 2, 'R-read': 4, 'R-foreign': 2, 'R-drop': 2})
+    INV_LOG = ('&&& self.f.log().len() == __P__ '
+               '&&& forall|j: int| 0 <= j < __P__ ==> (#[trigger] self.f.log()[j]).0 == self.la0@[j] && self.f.log()[j].1 == self.ra0@[j] '
+               '&&& self.ret@.len() >= __P__ '
+               '&&& forall|j: int| 0 <= j < __P__ ==> (#[trigger] self.ret@[j]) == Some(self.f.log()[j].2) '
+               '&&& forall|j: int| __P__ <= j < self.ret@.len() ==> (#[trigger] self.ret@[j]).is_none() '
+               '&&& (self.ret@.len() > __P__ ==> self.k == N::n())')
+    g.raw("""
+// ===== closure conversion (rule R-pipe) of the two pipelines in GenericArray::inverted_zip =====
+pub struct ZipPipe<B, T, U, N: ArrayLength, F: Foreign2<B, T, U>> {
+    pub left: ArrayConsumer<B, N>, pub right: ArrayConsumer<T, N>, pub k: usize, pub f: F,
+    pub ret: Ghost<Seq<Option<U>>>, pub la0: Ghost<Seq<B>>, pub ra0: Ghost<Seq<T>>, pub _u: core::marker::PhantomData<U>,
+}
+impl<B, T, U, N: ArrayLength, F: Foreign2<B, T, U>> ForeignIter<U> for ZipPipe<B, T, U, N, F> {
+    type K = (Seq<B>, Seq<T>);
+    open spec fn konst(&self) -> (Seq<B>, Seq<T>) { (self.la0@, self.ra0@) }
+    open spec fn returned(&self) -> Seq<Option<U>> { self.ret@ }
+    open spec fn hint(&self) -> (usize, Option<usize>) { ((N::n() - self.k) as usize, Some((N::n() - self.k) as usize)) }
+    open spec fn inv(&self) -> bool {
+        &&& self.left.wf() && self.right.wf() && self.k <= N::n() && self.la0@.len() == N::n() && self.ra0@.len() == N::n()
+        &&& self.left.position == self.right.position
+        &&& (self.k < N::n() ==> self.left.position == self.k)
+        &&& (self.k == N::n() ==> self.left.position == N::n())
+        &&& forall|j: int| self.left.position <= j < N::n() ==> (#[trigger] self.left.array.view()[j]) == Some(self.la0@[j])
+        &&& forall|j: int| self.right.position <= j < N::n() ==> (#[trigger] self.right.array.view()[j]) == Some(self.ra0@[j])
+        """ + INV_LOG.replace('__P__', 'self.left.position') + """
+    }
+    fn next(&mut self) -> (r: Option<U>)
+    {
+        // Zip of two slice iterators over N slots each
+        if self.k >= N::usize_() {
+            proof { self.ret = Ghost(self.ret@.push(None)); }
+            return None;
+        }
+        let l = self.k;
+        let r = self.k;
+        self.k += 1;
+""")
+    g.raw(ex.pretty(inner + ' proof { assert(self.left.wf() && self.right.wf()) /*OB:inverted_zip.unwind@closure:C04*/; } let __r = self.f.call(left_value, right_value); '
+                    'proof { self.ret = Ghost(self.ret@.push(Some(__r))); } Some(__r)'))
+    g.raw("""    }
+    fn size_hint(&self) -> (r: (usize, Option<usize>)) { (N::usize_() - self.k, Some(N::usize_() - self.k)) }
+}
+// the pipeline of the branch for element types WITHOUT drop glue: no guards; whatever is still in the two blocks when the
+// closure panics is simply forgotten, which is fine only because neither element type has drop glue
+pub struct PlainZipPipe<B, T, U, N: ArrayLength, F: Foreign2<B, T, U>> {
+    pub left: Slots<B, N>, pub right: Slots<T, N>, pub k: usize, pub f: F, pub nd_b: bool, pub nd_t: bool,
+    pub ret: Ghost<Seq<Option<U>>>, pub la0: Ghost<Seq<B>>, pub ra0: Ghost<Seq<T>>, pub _u: core::marker::PhantomData<U>,
+}
+impl<B, T, U, N: ArrayLength, F: Foreign2<B, T, U>> ForeignIter<U> for PlainZipPipe<B, T, U, N, F> {
+    type K = (Seq<B>, Seq<T>);
+    open spec fn konst(&self) -> (Seq<B>, Seq<T>) { (self.la0@, self.ra0@) }
+    open spec fn returned(&self) -> Seq<Option<U>> { self.ret@ }
+    open spec fn hint(&self) -> (usize, Option<usize>) { ((N::n() - self.k) as usize, Some((N::n() - self.k) as usize)) }
+    open spec fn inv(&self) -> bool {
+        &&& self.left.ok() && self.right.ok() && self.k <= N::n() && self.la0@.len() == N::n() && self.ra0@.len() == N::n()
+        &&& !self.nd_b && !self.nd_t          // this pipeline is only built when neither element type has drop glue
+        &&& forall|j: int| 0 <= j < N::n() ==> ((#[trigger] self.left.view()[j]).is_some() <==> j >= self.k)
+        &&& forall|j: int| 0 <= j < N::n() ==> ((#[trigger] self.right.view()[j]).is_some() <==> j >= self.k)
+        &&& forall|j: int| self.k <= j < N::n() ==> (#[trigger] self.left.view()[j]) == Some(self.la0@[j])
+        &&& forall|j: int| self.k <= j < N::n() ==> (#[trigger] self.right.view()[j]) == Some(self.ra0@[j])
+        """ + INV_LOG.replace('__P__', 'self.k') + """
+    }
+    fn next(&mut self) -> (r: Option<U>)
+    {
+        if self.k >= N::usize_() {
+            proof { self.ret = Ghost(self.ret@.push(None)); }
+            return None;
+        }
+        let l = self.k;
+        let r = self.k;
+        self.k += 1;
+        // closure body: f(ptr::read(l), ptr::read(r))
+        let __a = self.left.take(l);
+        let __b = self.right.take(r);
+        proof { assert((!self.nd_b || self.left.all_dead()) && (!self.nd_t || self.right.all_dead())) /*OB:inverted_zip.unwind@closure-unguarded-blocks-hold-nothing-that-needs-drop:C04*/; }
+        let __r = self.f.call(__a, __b);
+        proof { self.ret = Ghost(self.ret@.push(Some(__r))); }
+        Some(__r)
+    }
+    fn size_hint(&self) -> (r: (usize, Option<usize>)) { (N::usize_() - self.k, Some(N::usize_() - self.k)) }
+}
+""")
+    POST = ('proof { assert(pipe.la0@ == la0 && pipe.ra0@ == ra0); '
+            'assert forall|k: int| 0 <= k < N::n() implies (#[trigger] r->Ret_0.elems()[k]) == pipe.f.log()[k].2 by { '
+            'assert(pipe.returned()[k] == Some(r->Ret_0.elems()[k])); assert(pipe.ret@[k] == Some(pipe.f.log()[k].2)); } } ')
+    pipe1 = ('{ let mut pipe = ZipPipe { left: left, right: right, k: 0, f: f, ret: Ghost(Seq::empty()), la0: Ghost(la0), ra0: Ghost(ra0), _u: core::marker::PhantomData }; '
+             'proof { assert(pipe.inv()); } let r = from_iter::<U, N, ZipPipe<B, T, U, N, F>>(&mut pipe); ' + POST.replace('assert(pipe.la0@', 'assert(pipe.left.position == N::n()); assert(pipe.la0@') +
+             'let ZipPipe { left, right, k: _, f, ret: _, la0: _, ra0: _, _u: _ } = pipe; let mut left = left; let mut right = right; right.drop_impl(); left.drop_impl(); (r, f) }')
+    pipe2 = ('{ let mut pipe = PlainZipPipe { left: left, right: right, k: 0, f: f, nd_b: nd_b, nd_t: nd_t, ret: Ghost(Seq::empty()), la0: Ghost(la0), ra0: Ghost(ra0), _u: core::marker::PhantomData }; '
+             'proof { assert(pipe.inv()); } let r = from_iter::<U, N, PlainZipPipe<B, T, U, N, F>>(&mut pipe); ' + POST.replace('assert(pipe.la0@', 'assert(pipe.k == N::n()); assert(pipe.la0@') +
+             'let PlainZipPipe { left, right, k: _, f, nd_b: _, nd_t: _, ret: _, la0: _, ra0: _, _u: _ } = pipe; '
+             'left.scope_exit_unowned() /*OB:inverted_zip.nothing-live-leaves-scope-unowned:C03*/; right.scope_exit_unowned() /*OB:inverted_zip.nothing-live-leaves-scope-unowned-right:C03*/; (r, f) }')
+    m1 = re.search(r'FromIterator::from_iter\(left_array_iter\.zip\(right_array_iter\)\.map\(\|\(l, r\)\| \{ .*? f\(left_value, right_value\) \}\)\)', body)
+    body = body[:m1.start()] + pipe1 + body[m1.end():]
+    m2 = re.search(r'FromIterator::from_iter\(left\.iter\(\)\.zip\(right\.iter\(\)\)\.map\(\|\(l, r\)\| \{ f\(ptr::read\(l\), ptr::read\(r\)\) \}\)\)', body)
+    body = body[:m2.start()] + pipe2 + body[m2.end():]
+    body = 'let ghost la0 = lhs.elems(); let ghost ra0 = this.elems(); ' + body
+    ex.check_supported('inverted_zip', body)
+    g.emit_fn(Fn('inverted_zip', 'src/lib.rs', f['line'], f['sig'],
+                 'pub fn inverted_zip<B, T, U, N: ArrayLength, F: Foreign2<B, T, U>>(this: GenericArray<T, N>, lhs: GenericArray<B, N>, f: F, nd_t: bool, nd_b: bool) -> (ret: (PanicOr<GenericArray<U, N>>, F))', body,
+                 ['this.slots.ok()', 'this.slots.all_live()', 'lhs.slots.ok()', 'lhs.slots.all_live()', 'f.log().len() == 0'],
+                 [('never-the-length-panic', ['C08'], 'ret.0 is Ret'),
+                  ('once-per-index', ['C08'], 'ret.1.log().len() == N::n()'),
+                  ('pairs-ascending', ['C08'], 'forall|k: int| 0 <= k < N::n() ==> (#[trigger] ret.1.log()[k]).0 == lhs.elems()[k] && ret.1.log()[k].1 == this.elems()[k]'),
+                  ('result-k-at-index-k', ['C08'], 'forall|k: int| 0 <= k < N::n() ==> (#[trigger] ret.0->Ret_0.elems()[k]) == ret.1.log()[k].2')],
+                 stats, n, ['C03', 'C04', 'C08']))
     g.raw('proof fn canary() { assert(false); } /*OB:canary:*/')
     g.raw('} // verus!\nfn main() {}\n')
 
